@@ -6,7 +6,16 @@
 package sender
 
 //@ iface Service.SendContribution(self, ctx, recipient, account, distributionSecret, verificationVector)
+// C13, the initiator's ordering: a failed prepare or execute of any participant is on record (ghost failedsteps, only
+// grows), and a commit is only ever sent while nothing is on record.
 //@ iface Service.Prepare(self, ctx, recipient, account, passphrase, threshold, participants)
+//@ modifies failedsteps
+//@ ensures [record] result != nil ==> failedsteps > old(failedsteps)
+//@ ensures [clean] result == nil ==> failedsteps == old(failedsteps)
 //@ iface Service.Execute(self, ctx, recipient, account)
+//@ modifies failedsteps
+//@ ensures [record] result != nil ==> failedsteps > old(failedsteps)
+//@ ensures [clean] result == nil ==> failedsteps == old(failedsteps)
 //@ iface Service.Commit(self, ctx, recipient, account, confirmationData)
+//@ requires [nofailure] failedsteps == 0
 //@ iface Service.Abort(self, ctx, recipient, account)
